@@ -36,8 +36,9 @@ def main():
                 print("   " + "\n   ".join(r.stdout.splitlines()[-6:]))
     finally:
         subprocess.run(["git", "-C", "/repo", "checkout", "--", "."])
-        # never leave binaries of the changed tree behind
-        subprocess.run([os.path.join(ROOT, "vcheck"), "build", "debug", "release"], cwd=ROOT, stdout=subprocess.DEVNULL)
+        # never leave binaries of the changed tree behind (a batch driver may do this once at its end)
+        if not os.environ.get("MUTEST_NO_REBUILD"):
+            subprocess.run([os.path.join(ROOT, "vcheck"), "build", "debug", "release"], cwd=ROOT, stdout=subprocess.DEVNULL)
     print(json.dumps(res))
     return 0
 
